@@ -199,6 +199,14 @@ Definition to_int64 (n : num) : Z :=
   | None => - two63
   end.
 
+(* C's (unsigned long) cast as lstrlib applies it for %o %u %x %X: [2^63, 2^64) directly, the rest
+   through the signed conversion and two's complement *)
+Definition to_uint64 (n : num) : Z :=
+  match trunc_num n with
+  | Some z => if (two63 <=? z) && (z <? two64) then z else to_int64 n mod two64
+  | None => to_int64 n mod two64
+  end.
+
 Definition is_integral (n : num) : bool :=
   match n with
   | NFin _ m e => (e >=? 0) || (m mod 2 ^ (- e) =? 0)
@@ -214,9 +222,10 @@ Definition fmt_dir (go : bool) (sp : dspec) (a : farg) : option bytes :=
   | ANum n =>
     if (v =? 100) || (v =? 105) then Some (fmt_signed go sp (to_int64 n))          (* d i *)
     else if v =? 99 then Some (pad_str go sp [to_int64 n mod 256])                 (* c *)
-    else if v =? 120 then Some (fmt_unsigned go sp 16 false (to_int64 n mod two64)) (* x *)
-    else if v =? 88 then Some (fmt_unsigned go sp 16 true (to_int64 n mod two64))   (* X *)
-    else if v =? 111 then Some (fmt_unsigned go sp 8 false (to_int64 n mod two64))  (* o *)
+    else if v =? 120 then Some (fmt_unsigned go sp 16 false (to_uint64 n)) (* x *)
+    else if v =? 88 then Some (fmt_unsigned go sp 16 true (to_uint64 n))   (* X *)
+    else if v =? 111 then Some (fmt_unsigned go sp 8 false (to_uint64 n))  (* o *)
+    else if v =? 117 then Some (fmt_unsigned go sp 10 false (to_uint64 n)) (* u *)
     else if v =? 101 then Some (fmt_float go sp true false n)                       (* e *)
     else if v =? 69 then Some (fmt_float go sp true true n)                         (* E *)
     else if v =? 102 then Some (fmt_float go sp false false n)                      (* f *)
@@ -241,7 +250,10 @@ Definition verb_in (v : Z) (l : list Z) : bool := existsb (Z.eqb v) l.
 
 (* strFormat: a numeric conversion takes L.CheckNumber of its argument (a number, or a string that
    converts to one; anything else raises); %s takes the string itself.  None = the call raises. *)
-Definition numeric_verb (v : Z) : bool := verb_in v [100;105;99;120;88;111;101;69;102].
+Definition numeric_verb (v : Z) : bool := verb_in v [100;105;99;120;88;111;117;101;69;102;103;71].
+
+(* the conversions lstrlib defines: c d i o u x X e E f g G q s; any other raises 'invalid option' *)
+Definition valid_verb (v : Z) : bool := verb_in v [99;100;105;111;117;120;88;101;69;102;103;71;113;115].
 
 Definition resolve (sp : dspec) (a : farg) : option farg :=
   match a with
@@ -318,6 +330,7 @@ Fixpoint run_items (go : bool) (its : list item) (args : list farg) : fres :=
     match args with
     | [] => FErr                                    (* bad argument #n to 'format' (no value) *)
     | a :: args' =>
+      if negb (valid_verb (d_verb sp)) then FErr else   (* invalid option '%?' to 'format' *)
       match resolve sp a with
       | None => FErr                                (* bad argument #n (number expected, got string) *)
       | Some a' =>
@@ -345,8 +358,10 @@ Definition format (go : bool) (f : bytes) (args : list farg) : fres :=
 Definition arg_in_range (sp : dspec) (a : farg) : bool :=
   match a with
   | ANum n =>
-    if verb_in (d_verb sp) [100;105;99;120;88;111]
+    if verb_in (d_verb sp) [100;105;99]
     then match trunc_num n with Some z => in_int64 z | None => false end
+    else if verb_in (d_verb sp) [120;88;111;117]
+    then match trunc_num n with Some z => (- two63 <=? z) && (z <? two64) | None => false end
     else true
   | _ => true
   end.
@@ -359,6 +374,7 @@ Definition c_defined (sp : dspec) (a : farg) : bool :=
   arg_in_range sp a &&
   (if verb_in v [100;105] then negb (f_sharp sp)
    else if verb_in v [120;88;111] then true
+   else if v =? 117 then negb (f_sharp sp)
    else if v =? 99 then negb (f_sharp sp) && negb (f_zero sp)
                         && match d_prec sp with None => true | _ => false end
    else if v =? 115 then negb (f_sharp sp) && negb (f_zero sp)
